@@ -251,6 +251,62 @@ func c08(run *ev.Run, tier string) {
 			}
 		}
 	}
+	// overlapping declarations: a broad entry and a config entry for the same
+	// source at the same destination. Preparation may reject this as a
+	// collision; if it is accepted, the file must still be registered as config.
+	for _, first := range []string{"dirsrc", "glob", "tree"} {
+		for _, t := range []string{"config", "config|noreplace", "config|missingok"} {
+			od := fmt.Sprintf("overlap-%s", first)
+			cf := mkfile(od+"/app.conf", "conf\n")
+			mkfile(od+"/other.txt", "other\n")
+			s := base()
+			broad := &gen.Content{Dst: "/etc/typ/overlap"}
+			switch first {
+			case "dirsrc":
+				broad.Src = filepath.Join(dir, od)
+			case "glob":
+				broad.Src = filepath.Join(dir, od) + "/*"
+			case "tree":
+				broad.Src, broad.Type = filepath.Join(dir, od), "tree"
+			}
+			cfgEntry := &gen.Content{Type: t, Src: cf, Dst: "/etc/typ/overlap/app.conf"}
+			for _, order := range [][]*gen.Content{{broad, cfgEntry}, {cfgEntry, broad}} {
+				s.Contents = append([]*gen.Content{s.Contents[0]}, order...)
+				for _, f := range formats {
+					run.Case(fmt.Sprintf("overlap|%s|%s|%s|%v", first, t, f, order[0] == broad), true)
+					res := buildYAML(s.YAML(), f)
+					if res.Panic != "" {
+						run.Violate("C08/"+f+"/panic", map[string]any{"overlap": first, "type": t})
+						continue
+					}
+					if res.Err != nil {
+						continue // rejected (content collision): nothing was typed wrongly
+					}
+					p := dec.Decode(f, res.Bytes, false)
+					registered := false
+					switch f {
+					case "deb", "ipk":
+						for _, l := range p.Conf {
+							registered = registered || l == "/etc/typ/overlap/app.conf"
+						}
+					case "archlinux":
+						for _, l := range p.Conf {
+							registered = registered || l == "etc/typ/overlap/app.conf"
+						}
+					case "rpm":
+						if e := p.Find("/etc/typ/overlap/app.conf"); e != nil {
+							registered = e.Flags&rpmConfig != 0
+						}
+					case "apk":
+						registered = true // no notion of configuration files
+					}
+					if !registered {
+						run.Violate("C08/"+f+"/declared-config-silently-demoted/"+first, map[string]any{"type": t, "broad_entry_first": order[0] == broad})
+					}
+				}
+			}
+		}
+	}
 	// mixed generated lists
 	forCases(run, caseCfg{
 		prop: "C08", n: nmixed,
